@@ -162,11 +162,14 @@ def sumStep (n : Nat) (acc : Vec × Store) (q : Period) : Vec × Store :=
 def sumOver (n : Nat) (s : Store) (subs : List Period) : Vec × Store :=
   subs.foldl (sumStep n) (vzero n, s)
 
-/-- `Simulation.calculate_add`; `ok (none, _)` is the integer `0` Python's `sum` returns on an
-empty list of pieces -/
+/-- `Simulation.calculate_add` (with fix F-C03a: an `ETERNITY` period is refused after the
+eternal-variable guard); `ok (none, _)` is the integer `0` Python's `sum` returns on an empty list of
+pieces (sizes ≤ 0). `calculate`'s `_check_period_consistency` (fix F-C03b included) never fires
+here: every piece has the definition unit and size 1. -/
 def calcAdd (var : VarSpec) (s : Store) (p : Period) : Except String (Option Vec × Store) :=
   if unitWeight var.defUnit > unitWeight p.unit then .error "value"
   else if var.defUnit = .eternity then .error "eternal"
+  else if p.unit = .eternity then .error "eternal-period"
   else do
     let subs ← p.subperiods var.defUnit
     if subs.isEmpty then .ok (none, s) else
